@@ -107,7 +107,9 @@ class Gen:
     def build(self, idx):
         """returns (bytes, truth{num: (gen, value|Stream)}, freed set, meta)"""
         rng, sp = self.rng, self.sp
-        doc = pdfgen.page_doc(rng.choice([1, 2, 3]), marker="S")
+        # nested page trees: attributes inherited from the root through intermediate nodes that do not set them
+        doc = pdfgen.page_doc(rng.choice([1, 2, 3, 5, 7]), marker="S", kids_levels=rng.choice([1, 2, 2]),
+                              rotate={2: 90} if rng.random() < 0.3 else None)
         objs = {n: (0, v) for n, v in doc.objects.items()}
         nxt = max(objs) + 1
         extras = {}
